@@ -20,6 +20,7 @@ var commands = map[string]func([]string){
 	"iotrace":   cmdIOTrace,
 	"codec":     cmdCodec,
 	"cli":       cmdCLI,
+	"ip":        cmdIP,
 }
 
 func main() {
